@@ -104,7 +104,10 @@ def _sample_list(ift, W, m_field, res_keys, negs, tag="r"):
     return ResidualSampleList(m_field, rs, list(negs)), rsym
 
 
-def sec_class(chk):
+NCLASS = 4          # sec_class is split into NCLASS parts over the configurations (sections run in parallel processes)
+
+
+def _class_part(chk, part):
     """SampledKLEnergyClass on explicit symbolic sample lists"""
     import nifty.cl as ift
     import nifty.cl.minimization.kl_energies as kle
@@ -123,6 +126,7 @@ def sec_class(chk):
                (("a", "b"), KEYS, (True,))]
     if chk.tier == "thorough":
         configs += [((k,), KEYS, (False, True)) for k in ("b", "c")] + [(("a", "b"), ("a", "c"), (False, True, False, True))]
+    configs = configs[part::NCLASS]
     with objx.patched(), np_proxy(kle, isnan=isnan_real):
         W = MultiWorld(ift, KEYS, n=N, sign="real")
         H, response, value = _model(ift, W)
@@ -171,7 +175,10 @@ def sec_class(chk):
             chk.obligation(f"{lab}: the number of samples is the number of residuals", "discharged" if ok else "refuted", backend="identity")
 
 
-def sec_public(chk):
+NPUB = 6           # sec_public is split over the (constants, point estimates) configurations
+
+
+def _public_part(chk, part):
     """SampledKLEnergy(...): key handling for every split into constants / point estimates; samples from symbolic noise"""
     import nifty.cl as ift
     import nifty.cl.minimization.kl_energies as kle
@@ -182,6 +189,7 @@ def sec_public(chk):
     splits = [((), ()), (("a",), ()), ((), ("c",)), (("a",), ("a",)), (("a", "b"), ("b",)), (("c",), ("a", "c"))]
     if chk.tier == "thorough":
         splits += [((), ("a", "b")), (("b",), ("c",)), (("a", "b", "c"), ("c",)), (("b", "c"), ("b", "c"))]
+    splits = splits[part::NPUB]
     noise = SXNoise()
     old_cg = se.ConjugateGradient
     ExactCG.ift = ift
@@ -254,4 +262,20 @@ def sec_refusals(chk):
             chk.obligation(f"refusals: {what} is refused", "discharged" if ok else "refuted", backend="native")
 
 
-SECTIONS = [sec_class, sec_public, sec_refusals]
+def _mk_class(part):
+    def sec(chk):
+        return _class_part(chk, part)
+    sec.__name__ = f"sec_class_{part}"
+    sec.__doc__ = _class_part.__doc__
+    return sec
+
+
+def _mk_public(part):
+    def sec(chk):
+        return _public_part(chk, part)
+    sec.__name__ = f"sec_public_{part}"
+    sec.__doc__ = _public_part.__doc__
+    return sec
+
+
+SECTIONS = [_mk_class(k) for k in range(NCLASS)] + [_mk_public(k) for k in range(NPUB)] + [sec_refusals]
